@@ -62,6 +62,10 @@ def run_kernels(ks, gen_report, seed, n_lattice, n_real, driver, custom_gen=None
     mismatches = []
     reqs = []
     meta = []
+    import kgen2
+    cg_ = dict(kgen2.GENERATORS)
+    cg_.update(custom_gen or {})
+    custom_gen = cg_
     for k in ks:
         rep = gen_report.get(k['name'])
         st = stats.setdefault(k['name'], {'cases': 0, 'skipped_raise': 0, 'none': 0,
@@ -85,6 +89,14 @@ def run_kernels(ks, gen_report, seed, n_lattice, n_real, driver, custom_gen=None
                 f = lambda x: x.duplicate()     # noqa: E731
             elif rt == 'eq':
                 f = lambda x, y: x == y         # noqa: E731
+        if k.get('post_self'):
+            def mkps(g_, slots=k['post_self'].split(',')):
+                def call(self_, *a_, **kw_):
+                    g_(self_, *a_, **kw_)
+                    out_ = tuple(getattr(self_, s_) for s_ in slots)
+                    return out_ if len(out_) > 1 else out_[0]
+                return call
+            f = mkps(f)
         if k.get('self_from'):
             import importlib
             sf = k['self_from']
@@ -94,14 +106,60 @@ def run_kernels(ks, gen_report, seed, n_lattice, n_real, driver, custom_gen=None
             used = [pn.index(v) for v in sf['slots'].values()]
 
             def mk(g_, cls_=cls_, used=used):
-                def call(*a_):
+                def call(*a_, **kw_):
                     recv = cls_(*[a_[i] for i in used])
                     rest = [x for i, x in enumerate(a_) if i not in used]
-                    return g_(recv, *rest)
+                    return g_(recv, *rest, **kw_)
                 return call
             f = mk(f)
+        if k.get('build'):
+            import argspec
+            import importlib
+
+            class _Mk(object):
+                def new(self_, cls, slots, mode):
+                    if ':' in cls:
+                        mn, cn = cls.split(':')
+                        c_ = getattr(importlib.import_module('ladybug_geometry.' + mn), cn)
+                    else:
+                        c_ = lbg.find_real_class(cls)
+                    if mode == 'ctor':
+                        return c_(*[v_ for (_, v_) in slots])
+                    if isinstance(mode, (tuple, list)) and mode[0] == 'args':
+                        d_ = dict(slots)
+                        return c_(*[d_[x_] if isinstance(x_, str) else x_[1]
+                                    for x_ in mode[1]])
+                    o = c_.__new__(c_)
+                    for a_, v_ in slots:
+                        setattr(o, a_, v_)
+                    return o
+
+                def setattr(self_, o, a_, v_):
+                    setattr(o, a_, v_)
+
+            def mkbuild(g_, k=k):
+                def call(*a_, **kw_):
+                    byname = dict((p[0], x) for p, x in zip(k['params'], a_))
+                    argspec.prelink(k.get('prelink'), byname, _Mk())
+                    return g_(*[argspec.build(sp, byname, _Mk()) for sp in k['build']],
+                              **kw_)
+                return call
+            f = mkbuild(f)
         if k.get('ret_self'):
             f = (lambda g_: (lambda self_, *a_: (g_(self_, *a_), self_)))(f)
+        if k.get('post'):
+            def mkpost(g_, post=k['post']):
+                def call(*a_, **kw_):
+                    r_ = g_(*a_, **kw_)
+                    if r_ is None:
+                        return None
+                    if ',' in post:
+                        return tuple(getattr(r_, at_) for at_ in post.split(','))
+                    for at_ in post.split('.'):
+                        r_ = getattr(r_, at_)
+                    return r_
+                return call
+            f = mkpost(f)
         g = lbg.Gen(seed, 'kcorr/' + k['name'])
         for stream, n in (('lattice', n_lattice), ('real', n_real)):
             for i in range(n):
@@ -120,7 +178,12 @@ def run_kernels(ks, gen_report, seed, n_lattice, n_real, driver, custom_gen=None
                         args = [g.value(p[1], p[2] if len(p) > 2 else None, stream,
                                         p[3] if len(p) > 3 else None) for p in k['params']]
                         tries += 1
-                status, val = lbg.call_real(f, args, k.get('const_args'))
+                if k.get('kw_params'):
+                    kw_ = dict(k.get('const_args') or {})
+                    kw_.update((p[0], a_) for p, a_ in zip(k['params'], args))
+                    status, val = lbg.call_real(f, [], kw_)
+                else:
+                    status, val = lbg.call_real(f, args, k.get('const_args'))
                 if status == 'err':
                     if not k.get('err_as_none'):
                         st['skipped_raise'] += 1
